@@ -42,3 +42,9 @@ CONFIG["required_theorems"] = CONFIG.get("required_theorems", []) + _n40.get("re
 CONFIG["coq_targets"] = CONFIG["coq_targets"] + ['theories/Nfs41/Properties2.vo', 'theories/Nfs41/Properties2Mon.vo']
 CONFIG["properties_files"] = CONFIG["properties_files"] + ['theories/Nfs41/Properties2.v', 'theories/Nfs41/Properties2Mon.v']
 CONFIG["required_theorems"] = CONFIG.get("required_theorems", []) + ['pool_usecount_exact', 'open_stays_resolvable', 'open_file_putfh_succeeds', 'pool_entry_is_referenced', 'idle_list_ordered_by_last_seen', 'no_lapsed_idle_client', 'expiry_leaves_nothing', 'monitor_pool_holds_on_model', 'monitor_lease_holds_on_model']
+
+# ---- NFSv4.1 lease rule: independent lease monitor (coq/theories/Nfs41/SpecLease.v, kinds C18:client-expired-within-lease /
+# C18:client-expired-during-io evaluated in Nfs41/Corr.v) and the model facts it rests on (ProofsLease41.v)
+CONFIG["coq_targets"] = CONFIG["coq_targets"] + ['theories/Nfs41/Properties2Lease.vo']
+CONFIG["properties_files"] = CONFIG["properties_files"] + ['theories/Nfs41/Properties2Lease.v']
+CONFIG["required_theorems"] = CONFIG.get("required_theorems", []) + ['enter_clock_monotone41', 'expiry_only_after_lease41', 'enter_keeps_record41', 'held_client_survives_enter41', 'release_records_now41', 'sequence_pins_client41', 'sequence_end_renews_lease41', 'sequence_end_keeps_held41', 'create_session_touch_records_now41', 'reachable_expiry_only_after_lease_partial', 'inflight_compound_pins_client41', 'lease_monitor_accepts_model_trace', 'lease_monitor_rejects_early_expiry']
